@@ -47,6 +47,9 @@ type Checker[K any] struct {
 
 // Try judges one case; it returns true if the case passed.
 func (ck *Checker[K]) Try(k K) bool {
+	if ck.C.Stopped() {
+		return true // enough violations have been recorded: the run is winding down
+	}
 	ck.C.Evaluations.Add(1)
 	ck.C.Quiesce.RLock()
 	f := vlib.Guard(func() *vlib.Failure { return ck.Judge(k) })
